@@ -78,10 +78,17 @@ def batch(n, fail_at=None, fault=0):
     b = np.array([0.02 + 0.001 * ((i * 7919 + 13) % 1009) for i in range(n)])
     a = np.array([1.0 + 0.01 * ((i * 104729 + 7) % 997) for i in range(n)])
     E = np.array([0.5 + 0.25 * ((i * 1299709 + 3) % 991) for i in range(n)])
-    if fail_at is not None:
-        E[fail_at] = -1.0 - fault
     la = np.array([0.1 * i for i in range(n)])
     lo = np.array([0.2 * i for i in range(n)])
+    # degenerate compositions: the last event is a bit-identical copy of the first (a de-duplicating batch call must
+    # scatter its results back to every copy), and two events tie in the emergence angle only
+    if n >= 3:
+        for x in (b, a, E, la, lo):
+            x[n - 1] = x[0]
+    if n >= 5:
+        b[n - 2] = b[1]
+    if fail_at is not None:
+        E[fail_at] = -1.0 - fault
     return b, a, E, la, lo
 
 
@@ -203,9 +210,9 @@ def real_events():
     across partitions (partition sizes 1, 2)"""
     b = np.array([math.radians(x) for x in (5.0, 20.0, 20.0, 1.0, 35.0, 10.0, 20.0)])
     a = np.array([2.0, 2.0, 2.0, 0.5, 4.0, 12.0, 2.0])
-    E = np.array([0.003, 1.0, 10.0, 40.0, 0.2, 700.0, 300.0])
-    la = np.array([0.1, -0.9, -0.9, 0.5, 1.2, -0.3, 0.4])
-    lo = np.array([0.2, 2.5, 2.5, -1.0, 0.7, -2.8, 1.9])
+    E = np.array([0.003, 1.0, 10.0, 40.0, 0.2, 700.0, 1.0])
+    la = np.array([0.1, -0.9, -0.9, 0.5, 1.2, -0.3, -0.9])
+    lo = np.array([0.2, 2.5, 2.5, -1.0, 0.7, -2.8, 2.5])  # (event 6 is a bit-identical copy of event 1)
     return b, a, E, la, lo
 
 
